@@ -112,6 +112,9 @@ func (s *PagedSlice[T]) BatchSet(indexes []int, values []T) {
 
 	// 批量设置元素
 	for i, index := range indexes {
+		if index < 0 || index >= s.len {
+			continue
+		}
 		pageIndex := index / s.pageSize
 		elementIndex := index % s.pageSize
 		s.pages[pageIndex][elementIndex] = values[i]
